@@ -69,6 +69,10 @@ def engines():
     return _st["engines"]
 
 
+class PredicateMutated(Exception):
+    """A factory call changed a predicate object handed to it (relations and expressions are immutable values)."""
+
+
 class World:
     def __init__(self, st: dict):
         from lsst.daf.relation import LeafRelation
@@ -160,7 +164,13 @@ class World:
             return rel[c["a"] : (None if c["b"] == -1 else c["b"]) : c["step"]]
         if f == "join":
             p = c["p"]
-            return rel.join(self.operand(c["rhs"]), None if p == {"p": "lit", "v": True} else build.pred(p))
+            pred = None if p == {"p": "lit", "v": True} else build.pred(p)
+            before = None if pred is None else frozenset(pred.columns_required)
+            res = rel.join(self.operand(c["rhs"]), pred)
+            if pred is not None and frozenset(pred.columns_required) != before:
+                raise PredicateMutated(f"the join changed its predicate's columns_required from {sorted(map(str, before))} "
+                                       f"to {sorted(map(str, pred.columns_required))}")
+            return res
         if f == "joinl":
             return self.operand(c["lhs"]).join(rel)
         if f == "pjoinl":
@@ -169,6 +179,9 @@ class World:
             return ops.Join(Predicate.literal(True)).partial(self.operand(c["lhs"]), is_lhs=True).apply(rel)
         if f == "joinself":
             return rel.join(rel)
+        if f == "pjoinmx":
+            from lsst.daf.relation import _operations as ops
+            return ops.Join(max_columns=frozenset(build.tags(c["mx"]))).partial(self.operand(c["rhs"])).apply(rel)
         if f == "joinmx":
             from lsst.daf.relation import _operations as ops
             return ops.Join(min_columns=frozenset(build.tags(c["mn"])), max_columns=frozenset(build.tags(c["mx"]))).apply(rel, self.operand(c["rhs"]))
@@ -187,16 +200,19 @@ class World:
         from lsst.daf.relation import _operations as ops
 
         t = self.leaves["T1"].skip_to     # the bare LeafRelation
-        for c in self.st["hist"]:
+        for k, c in enumerate(self.st["hist"]):
             f = c["f"]
+            if k == 0 and f not in ("un", "xfer"):
+                # a raw binary node over two operands that are ALREADY conformed (Select markers)
+                t = self.leaves["T1"]
             if f == "un":
                 op = build.unary_op(c["op"])
                 t = UnaryOperationRelation(operation=op, target=t, columns=frozenset(op.applied_columns(t)))
-            elif f in ("join", "joinl", "pjoinl", "joinself", "joinmx"):
-                other = t if f == "joinself" else self.operand(c["rhs"] if f in ("join", "joinmx") else c["lhs"])
+            elif f in ("join", "joinl", "pjoinl", "joinself", "joinmx", "pjoinmx"):
+                other = t if f == "joinself" else self.operand(c["rhs"] if f in ("join", "joinmx", "pjoinmx") else c["lhs"])
                 lhs, rhs = (t, other) if f not in ("joinl", "pjoinl") else (other, t)
                 common = frozenset(x for x in lhs.columns & rhs.columns if x.is_key)
-                if f == "joinmx":
+                if f in ("joinmx", "pjoinmx"):
                     common = common & frozenset(build.tags(c["mx"]))
                 p = c.get("p", {"p": "lit", "v": True})
                 jop = ops.Join(build.pred(p), min_columns=common, max_columns=common)
@@ -320,8 +336,11 @@ def replay_state(st: dict, out: dict, want_event: bool, want_rejects: bool = Tru
     try:
         w = World(st)
         rel, breaks = w.build()
+    except PredicateMutated as exc:
+        V(["C09", "C13", "C20", "C14"], f"a factory call is not side-effect free: {exc}")
+        return
     except Exception as exc:  # noqa: BLE001
-        V(["C02", "C08", "C05"], f"a call sequence accepted by the specification raised {type(exc).__name__} at construction: {exc}")
+        V(["C02", "C08", "C05", "C14"], f"a call sequence accepted by the specification raised {type(exc).__name__} at construction: {exc}")
         return
     if breaks:
         V(["C14"], "a documented no-op call did not return the relation itself", calls=breaks)
@@ -381,7 +400,10 @@ def replay_state(st: dict, out: dict, want_event: bool, want_rejects: bool = Tru
         out["n_drift"] += 1
         if len(out["drift"]) < 3:
             out["drift"].append({"what": "bounds/flags differ from the model", "case": case, "real": m, "model": mm})
-    judged = same_shape or (st["det"] and not _has_slice(real_tree))
+    # when the real tree differs from the model's, the model's determinacy verdict still speaks about the
+    # OPERATION SEQUENCE: if TLC found the multiset (the list) determined, any correct tree must return it
+    # (a real tree that is itself less determined - e.g. a LIMIT moved below its ORDER BY - is no excuse)
+    judged = same_shape or st["det"]
     for i, got in enumerate(results):
         if len(got) < rel.min_rows or (rel.max_rows is not None and len(got) > rel.max_rows):
             V(["C06"], f"row count {len(got)} returned by the database outside [min_rows={rel.min_rows}, max_rows={rel.max_rows}]", reverse_unordered_selects=bool(i))
@@ -460,7 +482,7 @@ def replay_state(st: dict, out: dict, want_event: bool, want_rejects: bool = Tru
                     out["n_drift"] += 1
                     if len(out["drift"]) < 3:
                         out["drift"].append({"what": "conformed raw tree differs from the model", "case": case})
-                if not st["rawnested"] and (raw_same or not _has_slice(project.tree(conf))) and st["rawdet"]:
+                if not st["rawnested"] and st["rawdet"]:
                     for reverse in (False, True):
                         got = run_sql(w2.sql, conf, reverse)
                         cnt["raw_bag_compared"] = cnt.get("raw_bag_compared", 0) + 1
@@ -603,4 +625,13 @@ def run(tier: str, seed: int) -> list[Part]:
     p.notes.append("TLC counterexample re-derives F15: calculation then projection dropping the calculated column")
     p.wall_s = time.time() - t0
     parts.append(p)
+    t0 = time.time()
+    kf22 = run_tlc("MC_Sql.tla", "SqlKF22.cfg", expect_violation=True, heap="3g")
+    if kf22.violated != "CompileTotal":
+        raise MachineryError(f"companion SqlKF22 (Sort branch as at the pinned commit) no longer violates CompileTotal (got {kf22.violated})")
+    p22 = Part(name="sqlprogram:F22-companion", cfg="SqlKF22.cfg", states=max(kf22.distinct, 1), transitions=max(kf22.generated, 1))
+    p22.notes.append("with the pinned-commit rule TLC re-derives F22: a sort by an expression over a chain compiles to a UNION whose ORDER BY "
+                     "is not one of its result columns (invalid SQL)")
+    p22.wall_s = time.time() - t0
+    parts.append(p22)
     return parts
